@@ -105,7 +105,7 @@ def enumerated(tier):
     for op in ('log', 'close', 'start'):
       for idx in range(60):
         yield {'k': 'sched', 'action': action, 'op': op, 'idx': idx}
-  for idx in range(0, 900, 2 if tier == 'quick' else 1):
+  for idx in range(450 if tier == 'quick' else 900):
     yield {'k': 'exec_sched', 'idx': idx}
   for n in (1, 2, 5, 20):
     yield {'k': 'seq', 'n': n, 'mode': 'layer'}
@@ -762,11 +762,14 @@ def run_exec_sched(case):
   prog, cfg = c04.FAMILY[0]
   if not _EXEC_POINTS:
     d = abortlab.run(prog, cfg, target=None)
+    firsts, lasts = [], []
     for key, n in sorted(d['seen'].items()):
       if key[0] == 'exec':
-        _EXEC_POINTS.append((key, 1))
+        firsts.append((key, 1))
         if n > 1:
-          _EXEC_POINTS.append((key, n))     # last hit
+          lasts.append((key, n))     # last hit
+    # the quick tier takes the first 450 entries: every line, first hit
+    _EXEC_POINTS.extend(firsts + lasts)
   if case['idx'] >= len(_EXEC_POINTS):
     return {'sig': None, 'violations': [], 'counters': c, 'evaluations': 0,
             'sample': False}
